@@ -64,6 +64,20 @@ fn main() {
             };
             std::process::exit(check::run_check(&o));
         }
+        "debug-lint" => {
+            // hsim debug-lint <language id> <file>: lint a text the way the reference does, with a backtrace on panic
+            unsafe { std::env::set_var("RUST_BACKTRACE", "1") };
+            let lang = args.get(2).cloned().unwrap_or_default();
+            let text = std::fs::read_to_string(args.get(3).cloned().unwrap_or_default()).unwrap_or_default();
+            match lsp::reference::lints_for(&text, &lang, &lsp::reference::Settings::default(), &[], &[]) {
+                lsp::reference::Reference::Unsupported => println!("unsupported language"),
+                lsp::reference::Reference::Lints(r) => {
+                    for l in &r.lints {
+                        println!("{:?} {}", l.span, l.message);
+                    }
+                }
+            }
+        }
         "replay" => {
             let Some(path) = args.get(2) else {
                 eprintln!("usage: hsim replay <file>");
